@@ -16,7 +16,7 @@ CACHE = os.path.join(VERIF, ".cache")
 HARNESS = os.path.join(VERIF, "harness")
 REPO = os.environ.get("VERIF_REPO", "/repo")
 GUARD = "dust_dds_verif"
-NPROC = 16
+NPROC = int(os.environ.get("VERIF_NPROC", "6"))  # TODO restore default 16 when the machine is quiet
 
 FORBIDDEN = re.compile(
     r"\b(Admitted|admit|Axiom|Axioms|Parameter|Parameters|Conjecture|Conjectures|"
@@ -362,10 +362,14 @@ def coq_eval_cases(ctx, corr_module, prefix, case_type, terms, shards=NPROC, tim
         return [], [], None
     work = os.path.join(CACHE, "cases", ctx.pid)
     os.makedirs(work, exist_ok=True)
-    shards = max(1, min(shards, (n + 49) // 50))
-    chunks = [list(range(i, n, shards)) for i in range(shards)]
-    procs = []
-    for k, ch in enumerate(chunks):
+    # bounded files (memory: ~0.5 MB per case inside coqc), at most `shards` coqc at a time
+    per_file = int(os.environ.get("VERIF_CASES_PER_FILE", "800"))
+    nfiles = max(1, min(max(shards, (n + per_file - 1) // per_file), max(1, (n + 49) // 50)))
+    chunks = [list(range(i, n, nfiles)) for i in range(nfiles)]
+    model_bad, oracle_bad = [], []
+    err = None
+
+    def launch(k, ch):
         path = os.path.join(work, "%s_%d.v" % (tag, k))
         with open(path, "w") as f:
             f.write("From DustDDS Require Import Base.Machine %s.\n" % corr_module)
@@ -378,20 +382,30 @@ def coq_eval_cases(ctx, corr_module, prefix, case_type, terms, shards=NPROC, tim
         p = subprocess.Popen(["coqc", "-noglob", "-Q", os.path.join(COQ, "theories"), "DustDDS",
                               "-o", path + "o", path], cwd=work,
                              stdout=subprocess.PIPE, stderr=subprocess.STDOUT, text=True)
-        procs.append((p, ch, path))
-    model_bad, oracle_bad = [], []
-    err = None
-    for p, ch, path in procs:
+        return (p, ch, path, time.time())
+
+    pending = list(enumerate(chunks))
+    running = []
+    while pending or running:
+        while pending and len(running) < shards:
+            k, ch = pending.pop(0)
+            running.append(launch(k, ch))
+        p, ch, path, t0 = running.pop(0)
         try:
             out, _ = p.communicate(timeout=timeout)
         except subprocess.TimeoutExpired:
             p.kill()
+            p.communicate()
             out = "[timeout]"
         flat = " ".join(out.split())
         ms = re.findall(r"= (\[.*?\]|nil) : list", flat)
         if p.returncode != 0 or len(ms) != 2:
             err = "coqc failed on %s: %s" % (path, out[-800:])
             continue
+        try:
+            os.remove(path + "o")
+        except OSError:
+            pass
         mb = [int(x) for x in re.findall(r"(\d+)%N", ms[0])] if ms[0] != "nil" else []
         pairs = re.findall(r"\((\d+)%N, (\d+)%N\)", ms[1])
         model_bad += [ch[i] for i in mb]
